@@ -1,5 +1,11 @@
 //! Deterministic simulator for RustCrypto/block-ciphers (see /verif/DESIGN.md).
 #![allow(clippy::missing_safety_doc, clippy::too_many_arguments)]
 
+pub mod bcrypt;
+pub mod engine;
+pub mod workload;
+pub mod mem;
 pub mod prng;
 pub mod registry;
+pub mod residue;
+pub mod world;
